@@ -248,6 +248,10 @@ pub const CORPUS: &[(&str, &str)] = &[
     ("dynamic-bounds", "min sum(i in 0..2) { x_i }\ns.t.\n    x_i >= lo[i] for i in 0..2\nwhere\n    let lo = [1, 2]\n    let hi = [5, 6]\ndefine\n    x_i as Real(lo[i], hi[i]) for i in 0..2\n    k as IntegerRange(len(lo), 2 * 3)\n"),
     ("constant-arithmetic", "min k * x + m * y_{k - 13}\ns.t.\n    x >= j - 3\n    y_i >= h for i in 0..(k - 12)\nwhere\n    let k = 2 + 3 * 4 - 1\n    let j = -k + 20\n    let m = k / 2\n    let h = (j - m) * 0\ndefine\n    x as Real(0, 100)\n    y_i as Real(0, 9) for i in 0..2\n"),
     ("unicode-strings", "min x // caf\u{e9} \u{2192} comment\ns.t.\n    x >= len(S)\nwhere\n    let S = [\"\u{e9}\u{2192}\", \"b\u{1f642}\"]\n    let T = \"\u{df}\"\ndefine\n    x as Real\n"),
+    ("index-expressions", "min x_{c[0]} + y_{len(c)}_1 + x_{c[1] - 1}\ns.t.\n    x_{c[i]} >= i for i in 0..2\n    y_{len(c)}_{i} <= 4 for i in 0..2\n    cap_{c[i]}: x_i <= 8 for i in 0..2\nwhere\n    let c = [1, 2]\ndefine\n    x_i as Real(0, 9) for i in 0..3\n    y_i_j as Real(0, 9) for i in 0..3, j in 0..3\n"),
+    ("unary-minus-before-blocks", "min -sum(i in 0..2) { x_i } - -abs { x_0 } + -(x_0 + x_1) - max { x_0, -x_1 } * -2\ns.t.\n    -min { x_0, x_1 } <= 0\n    -x_0 <= -(-1)\ndefine\n    x_i as Real(-3, 3) for i in 0..2\n"),
+    ("strict-comparisons", "min x\ns.t.\n    x > 1\n    x + y < 4\n    2 * y > -3\ndefine\n    x, y as Real(0, 10)\n"),
+    ("mixed-matrix", "min sum(i in 0..2, j in 0..2) { M[i][j] * x_i } + k * x_0 + T[1][0][1] * x_1\ns.t.\n    x_i >= M[i][0] for i in 0..2\n    x_0 <= M[1][1] + len(M[0])\nwhere\n    let M = [[1, 2], [3, 4.5]]\n    let T = [[[1, 2], [3, 4]], [[5, 6.5], [7, 8]]]\n    let k = M[0][1]\ndefine\n    x_i as Real(0, 20) for i in 0..2\n"),
 ];
 
 pub fn run(mut run: Run) -> ! {
